@@ -1,6 +1,8 @@
 (* C06 — stream decoding is independent of how the bytes are chunked. *)
 From Coq Require Import ZArith List.
 From HP Require Import Bytes Wire WireFacts ParamsOK WireStream.
+From HP Require ProtoGen ProtoGenEq ProtoGenProps.
+From HP Require Import PyPrim.
 Import ListNotations.
 Open Scope Z_scope.
 
@@ -28,6 +30,27 @@ Theorem C06_prompt : forall (fs1 : list (Z * bytes)) (f : Z * bytes) (p1 : bytes
   feed_all limitP (firstn k chunks) = (fs1, p1, None).
 Proof. exact WireStream.prompt. Qed.
 
+(* ---- for the SOURCE (ProtoGen.v = /repo/hpfeeds/protocol.py translated on this run).
+   src_feed_all chunks: a fresh translated Unpacker; for every chunk  feed(chunk)  then  __next__  until it
+   raises; the result is (values yielded so far, self.buf, the last exception unless StopIteration). ---- *)
+Theorem C06_src_chunk_independent : forall chunks : list bytes,
+  ProtoGenEq.src_feed_all chunks = ProtoGenEq.src_feed_all [concat chunks].
+Proof. exact ProtoGenProps.src_chunk_independent. Qed.
+
+Theorem C06_src_frames : forall (fs : list (Z * bytes)) (p : bytes) (chunks : list bytes),
+  Forall (wf_frame limitP) fs -> next limitP p = NeedMore ->
+  concat chunks = concat (map enc fs) ++ p ->
+  ProtoGenEq.src_feed_all chunks = (map (fun f => VTuple [VInt (fst f); VBytes (snd f)]) fs, VBArr p, None).
+Proof. exact ProtoGenProps.src_frames. Qed.
+
+(* the translated Unpacker and the model agree on every input, so everything above transfers *)
+Theorem C06_src_is_model : forall chunks : list bytes,
+  ProtoGenEq.src_feed_all chunks = ProtoGenEq.abs_result (feed_all limitP chunks).
+Proof. exact ProtoGenEq.src_feed_all_eq. Qed.
+
 Print Assumptions C06_chunk_independent.
 Print Assumptions C06_frames.
 Print Assumptions C06_prompt.
+Print Assumptions C06_src_chunk_independent.
+Print Assumptions C06_src_frames.
+Print Assumptions C06_src_is_model.
